@@ -677,7 +677,8 @@ class Inliner:
             h, recv = self._callee(f, call)
             if h is not None and h.expr is None and h.qname != f.qname and not h.loop_return:
                 try:
-                    keep = frozenset(t.id for t in (targets or []) if isinstance(t, ast.Name))
+                    keep = frozenset(x.id for t in (targets or []) for x in ([t] if isinstance(t, ast.Name) else (
+                        t.elts if isinstance(t, (ast.Tuple, ast.List)) else [])) if isinstance(x, ast.Name))
                     pre, mapping, rename = _bind(h, call, recv, self._fresh(), self._names(f), keep)
                     body = [_Subst(mapping, rename).visit(_clone(x)) for x in h.body]
                     if kind == "return":
